@@ -696,6 +696,15 @@ def h_send_in_close_window(ctx, kinds):
              % (len(new), len(want), refused), new == want)]
 
 
+def h_socket_wire(ctx, n):
+    """below the network layer: the real asyncore dispatcher over a socket double whose sends accept all, half or nothing of the data
+    (back-pressure, solver's choice): the peer of each connection receives what was written to it in order -- a later write never overtakes
+    the unsent tail of an earlier one, nothing of an earlier connection leaks into the next"""
+    from checks import c16
+    obs = c16.h_network(ctx, n, ("connect-request", "connect-completes", "send"))
+    return [(l, o) for l, o in obs if "peer of connection" in l or "drains" in l or "nothing was ever written" in l]
+
+
 def h_login_wire(ctx, second, edge=False):
     """the handshake thread's first write against the thread that starts it, and the first bytes of a later login on the same stack:
     the real noise and segments layers (C16's lifecycle stack), the handshake worker writing its first message as soon as it is started.
@@ -744,6 +753,7 @@ def h_big_frames(ctx):
 def cases(tier):
     cs = [dict(name="after-peer-drop[app+keepalive]", fn=h_after_peer_drop, args=(("app", "keepalive"),)),
           dict(name="big-frames", fn=h_big_frames, keep_samples=8),
+          dict(name="socket-wire[asyncore dispatcher under back-pressure,len<=6]", fn=h_socket_wire, args=(6,), max_paths=200000, timeout_s=900, weight=30),
           dict(name="send-in-close-window[app+keepalive]", fn=h_send_in_close_window, args=(("app", "keepalive"),)),
           dict(name="login-wire[first login]", fn=h_login_wire, args=(False,)), dict(name="login-wire[second login on the same stack]", fn=h_login_wire, args=(True,)),
           dict(name="login-wire[first login, edge routing info configured]", fn=h_login_wire, args=(False, True)),
